@@ -361,6 +361,9 @@ Inductive ritem := RIOk (id : logid) (p : payload) | RIErr (k : ekind) | RIPanic
 
 (* Chunk::read_record: pread of the segment, then decode *)
 Definition read_record (d : disk) (c : chunk) (off len : N) : outcome (record + err) :=
+  (* segment.offset().0 - self.global_start() on u64 comes first, before any I/O: it
+     underflows (a panic in debug builds) when the offset lies below the chunk's start *)
+  if N.ltb off (ck_id c) then Panic else
   match disk_get (ck_id c) d with
   | None => Ret (inr EDecodeEof)
   | Some f =>
